@@ -121,6 +121,7 @@ fn seek<P: ProvenanceStore>(c: &mut PlaybackCursor, t: u64, prov: &P, base: &Wor
 }
 
 #[derive(Debug)]
+#[allow(dead_code)] // payloads are rendered through Debug in violation messages
 enum SeekOutcome {
     Typed(SeekError),
     Panic(String),
